@@ -469,29 +469,23 @@ func c14(r *core.Run) {
 				// inlined): the outcome of a path is decided by the assignments it passes, not by the
 				// return it ends in. A path that passes a store of a non-nil error fails; one that
 				// passes none returns the zero value, nil.
-				isFailSt := func(in ssa.Instruction) bool {
-					for _, st := range cell.failing {
-						if in == ssa.Instruction(st) {
-							return true
-						}
-					}
-					return false
+				// A result assigned from a helper with several returns (`result, err = p.pickLocked()`,
+				// helper inlined) is one store of a φ: there the path is decided by the edge through
+				// which it enters the φ (cell.failE / cell.clearE).
+				isFailSt, cutFail := cell.isFail, core.CutSet(cell.failE)
+				if _, ok := core.Reach(core.Q{From: cell.afterFail(), Target: cell.clearPoints()}); ok {
+					o.Unres("the error result of Pick is reset to nil after a failure was assigned (%s)", p.InstrPos(ret))
 				}
-				for _, st := range cell.clearing {
-					if _, ok := core.Reach(core.Q{From: afterAll(cell.failing), Target: core.Is(st)}); ok {
-						o.Unres("the error result of Pick is reset to nil after a failure was assigned (%s)", p.InstrPos(st))
-					}
-				}
-				if _, ok := core.Reach(core.Q{From: []core.At{core.Entry(pick)}, Target: core.Is(ret), Blocked: isFailSt}); ok {
+				if _, ok := core.Reach(core.Q{From: []core.At{core.Entry(pick)}, Target: core.Is(ret), Blocked: isFailSt, Cut: cutFail}); ok {
 					nOK++
-					if _, ok := core.Reach(core.Q{From: []core.At{core.Entry(pick)}, Target: core.Is(ret), Blocked: core.Or(isInc, isFailSt)}); ok {
+					if _, ok := core.Reach(core.Q{From: []core.At{core.Entry(pick)}, Target: core.Is(ret), Blocked: core.Or(isInc, isFailSt), Cut: cutFail}); ok {
 						o.Fail(p.InstrPos(ret), "a successful return of Pick is reachable without incrementing inflight")
 					}
 				}
-				if w, ok := core.Reach(core.Q{From: afterAll(incs), Target: isFailSt}); ok {
+				if w, ok := core.Reach(core.Q{From: afterAll(incs), Target: cell.failPoints()}); ok {
 					o.Fail(p.InstrPos(w), "Pick fails after having incremented inflight (no callback will decrement it)")
 				}
-				if w, ok := core.Reach(core.Q{From: afterAll(cell.failing), Target: isInc}); ok {
+				if w, ok := core.Reach(core.Q{From: cell.afterFail(), Target: isInc}); ok {
 					o.Fail(p.InstrPos(w), "Pick increments inflight on a path on which it has already decided to fail (no callback will decrement it)")
 				}
 			} else if core.IsNil(core.Result(ret, 1)) {
@@ -1007,10 +1001,69 @@ func c14Choose(o *core.O, p *core.Prog, f *ssa.Function, cmp *ssa.If, isNow func
 		}
 		return "?"
 	}
-	nLow := 0
+	// The outcomes of choose: every value a return can yield, with — where returns were merged into one
+	// (`if c2 != nil { … }; store; return c1`: the single-candidate path and the lower-load path share a
+	// tail) — the CFG edge through which it enters the returned φ. A φ that is itself the lower / higher
+	// candidate is one outcome; the block of a φ that is taken apart must not lie on a cycle.
+	type outcome struct {
+		ret  *ssa.Return
+		val  ssa.Value
+		edge *core.Edge
+	}
+	var outcomes []outcome
+	var expand func(ret *ssa.Return, v ssa.Value, edge *core.Edge, depth int)
+	expand = func(ret *ssa.Return, v ssa.Value, edge *core.Edge, depth int) {
+		ph, isPhi := v.(*ssa.Phi)
+		if !isPhi || class(v) != "?" || depth > 3 || len(ph.Edges) != len(ph.Block().Preds) {
+			outcomes = append(outcomes, outcome{ret, v, edge})
+			return
+		}
+		for _, s := range ph.Block().Succs {
+			if _, again := core.Reach(core.Q{From: []core.At{core.Head(s)}, Target: core.Is(gxLast(ph.Block()))}); again {
+				outcomes = append(outcomes, outcome{ret, v, edge})
+				return
+			}
+		}
+		for i, e := range ph.Edges {
+			for j, pr := range ph.Block().Preds {
+				if j != i && pr == ph.Block().Preds[i] {
+					outcomes = append(outcomes, outcome{ret, v, edge})
+					return
+				}
+			}
+			ed := core.Edge{From: ph.Block().Preds[i], To: ph.Block()}
+			expand(ret, e, &ed, depth+1)
+		}
+	}
 	for _, ret := range core.Returns(f) {
-		v := core.Result(ret, 0)
-		if _, ok := core.Reach(core.Q{From: []core.At{core.Head(tb), core.Head(fb)}, Target: core.Is(ret)}); !ok {
+		expand(ret, core.Result(ret, 0), nil, 0)
+	}
+	afterCmp := []core.At{core.Head(tb), core.Head(fb)}
+	// the outcome can only be produced on a path that passed an edge on which one of the atoms holds
+	requires := func(oc outcome, atoms ...core.Atom) bool {
+		if oc.edge == nil {
+			return core.Requires(f, core.Is(oc.ret), atoms...) == nil
+		}
+		var cut []core.Edge
+		for _, a := range atoms {
+			h, _ := core.EdgesOf(f, a)
+			cut = append(cut, h...)
+		}
+		return !gxEdgeReachable(f, *oc.edge, cut)
+	}
+	nLow := 0
+	var lows []outcome
+	for _, oc := range outcomes {
+		ret, v := oc.ret, oc.val
+		after := false
+		if oc.edge == nil {
+			_, after = core.Reach(core.Q{From: afterCmp, Target: core.Is(ret)})
+		} else if oc.edge.From == cmp.Block() {
+			after = true
+		} else {
+			_, after = core.Reach(core.Q{From: afterCmp, Target: core.Is(gxLast(oc.edge.From))})
+		}
+		if !after {
 			// returns not after the comparison (single candidate): must return a parameter
 			if _, isP := v.(*ssa.Parameter); !isP {
 				o.Fail(p.InstrPos(ret), "choose returns %s, not one of its candidates", core.Describe(v))
@@ -1020,6 +1073,7 @@ func c14Choose(o *core.O, p *core.Prog, f *ssa.Function, cmp *ssa.If, isNow func
 		switch class(v) {
 		case "low":
 			nLow++
+			lows = append(lows, oc)
 		case "high":
 			stale := core.Cmp(token.GTR, func(d ssa.Value) bool {
 				s, ok := d.(*ssa.BinOp)
@@ -1031,7 +1085,7 @@ func c14Choose(o *core.O, p *core.Prog, f *ssa.Function, cmp *ssa.If, isNow func
 			}, core.IsConstInt(1e9))
 			if core.EdgeCount(f, stale) == 0 {
 				o.Fail(p.InstrPos(ret), "the higher-load candidate is returned without the test now − pick > 1 s on it")
-			} else if w := core.Requires(f, core.Is(ret), stale); w != nil {
+			} else if !requires(oc, stale) {
 				o.Fail(p.InstrPos(ret), "the higher-load candidate can be returned although it was picked within the last second")
 			}
 		default:
@@ -1069,12 +1123,9 @@ func c14Choose(o *core.O, p *core.Prog, f *ssa.Function, cmp *ssa.If, isNow func
 	if core.EdgeCount(f, staleH) == 0 {
 		return // reported above
 	}
-	for _, ret := range core.Returns(f) {
-		if class(core.Result(ret, 0)) != "low" {
-			continue
-		}
-		if w := core.Requires(f, core.Is(ret), core.Not(staleH), core.Not(claimed)); w != nil {
-			o.Fail(p.InstrPos(ret), "choose can prefer the lower-load candidate although the other one was not picked for more than 1 s and could be claimed: a further condition stands between the staleness test and the forced pick, so a connection that fails it (e.g. an unhealthy one) is never probed again and cannot recover")
+	for _, oc := range lows {
+		if !requires(oc, core.Not(staleH), core.Not(claimed)) {
+			o.Fail(p.InstrPos(oc.ret), "choose can prefer the lower-load candidate although the other one was not picked for more than 1 s and could be claimed: a further condition stands between the staleness test and the forced pick, so a connection that fails it (e.g. an unhealthy one) is never probed again and cannot recover")
 		}
 	}
 }
